@@ -11,7 +11,9 @@ import (
 )
 
 func sig(ret *pt.Type, params ...*pt.Type) *Sig { return &Sig{Params: params, Ret: ret} }
-func vsig(ret *pt.Type, el *pt.Type) *Sig      { return &Sig{Params: []*pt.Type{el}, Variadic: true, Ret: ret} }
+func vsig(ret *pt.Type, el *pt.Type) *Sig {
+	return &Sig{Params: []*pt.Type{el}, Variadic: true, Ret: ret}
+}
 
 var (
 	n_ = pt.TNum
@@ -29,8 +31,8 @@ var BuiltinSigs = map[string]*Sig{
 	"split": sig(pt.ArrOf(s_), s_, s_), "upper": sig(s_, s_), "lower": sig(s_, s_), "index": sig(n_, s_, s_),
 	"startswith": sig(b_, s_, s_), "endswith": sig(b_, s_, s_), "trim": sig(s_, s_, s_), "replace": sig(s_, s_, s_, s_),
 	"str2num": sig(n_, s_), "str2bool": sig(b_, s_), "typeof": sig(s_, a_), "len": sig(n_, a_),
-	"has": {Params: []*pt.Type{pt.TEMap, s_}, Ret: b_, Generic: true},
-	"del": {Params: []*pt.Type{pt.TEMap, s_}, Ret: x_, Generic: true},
+	"has":   {Params: []*pt.Type{pt.TEMap, s_}, Ret: b_, Generic: true},
+	"del":   {Params: []*pt.Type{pt.TEMap, s_}, Ret: x_, Generic: true},
 	"sleep": sig(x_, n_), "exit": sig(x_, n_), "panic": sig(x_, s_), "test": vsig(x_, a_),
 	"rand": sig(n_, n_), "rand1": sig(n_),
 	"min": sig(n_, n_, n_), "max": sig(n_, n_, n_), "pow": sig(n_, n_, n_), "atan2": sig(n_, n_, n_),
@@ -146,7 +148,9 @@ func init() {
 			}
 			return string(s), nil
 		},
-		"replace": func(_ *Interp, a []Val) (Val, error) { return Replace(a[0].(string), a[1].(string), a[2].(string)), nil },
+		"replace": func(_ *Interp, a []Val) (Val, error) {
+			return Replace(a[0].(string), a[1].(string), a[2].(string)), nil
+		},
 		"str2num": func(in *Interp, a []Val) (Val, error) {
 			s := a[0].(string)
 			f, ok := ParseNum(s)
@@ -209,19 +213,31 @@ func init() {
 		"abs": num1(math.Abs), "floor": num1(math.Floor), "ceil": num1(math.Ceil), "round": num1(math.Round),
 		"log": num1(math.Log), "sqrt": num1(math.Sqrt), "sin": num1(math.Sin), "cos": num1(math.Cos),
 
-		"move":   func(in *Interp, a []Val) (Val, error) { in.eff("move:" + g(a[0].(float64)) + "," + g(a[1].(float64))); return nil, nil },
-		"line":   func(in *Interp, a []Val) (Val, error) { in.eff("line:" + g(a[0].(float64)) + "," + g(a[1].(float64))); return nil, nil },
-		"rect":   func(in *Interp, a []Val) (Val, error) { in.eff("rect:" + g(a[0].(float64)) + "," + g(a[1].(float64))); return nil, nil },
-		"circle": func(in *Interp, a []Val) (Val, error) { in.eff("circle:" + g(a[0].(float64))); return nil, nil },
-		"width":  func(in *Interp, a []Val) (Val, error) { in.eff("width:" + g(a[0].(float64))); return nil, nil },
-		"color":  func(in *Interp, a []Val) (Val, error) { in.eff("color:" + a[0].(string)); return nil, nil },
-		"colour": func(in *Interp, a []Val) (Val, error) { in.eff("color:" + a[0].(string)); return nil, nil },
-		"stroke": func(in *Interp, a []Val) (Val, error) { in.eff("stroke:" + a[0].(string)); return nil, nil },
-		"fill":   func(in *Interp, a []Val) (Val, error) { in.eff("fill:" + a[0].(string)); return nil, nil },
+		"move": func(in *Interp, a []Val) (Val, error) {
+			in.eff("move:" + g(a[0].(float64)) + "," + g(a[1].(float64)))
+			return nil, nil
+		},
+		"line": func(in *Interp, a []Val) (Val, error) {
+			in.eff("line:" + g(a[0].(float64)) + "," + g(a[1].(float64)))
+			return nil, nil
+		},
+		"rect": func(in *Interp, a []Val) (Val, error) {
+			in.eff("rect:" + g(a[0].(float64)) + "," + g(a[1].(float64)))
+			return nil, nil
+		},
+		"circle":  func(in *Interp, a []Val) (Val, error) { in.eff("circle:" + g(a[0].(float64))); return nil, nil },
+		"width":   func(in *Interp, a []Val) (Val, error) { in.eff("width:" + g(a[0].(float64))); return nil, nil },
+		"color":   func(in *Interp, a []Val) (Val, error) { in.eff("color:" + a[0].(string)); return nil, nil },
+		"colour":  func(in *Interp, a []Val) (Val, error) { in.eff("color:" + a[0].(string)); return nil, nil },
+		"stroke":  func(in *Interp, a []Val) (Val, error) { in.eff("stroke:" + a[0].(string)); return nil, nil },
+		"fill":    func(in *Interp, a []Val) (Val, error) { in.eff("fill:" + a[0].(string)); return nil, nil },
 		"linecap": func(in *Interp, a []Val) (Val, error) { in.eff("linecap:" + a[0].(string)); return nil, nil },
-		"text":   func(in *Interp, a []Val) (Val, error) { in.eff("text:" + a[0].(string)); return nil, nil },
-		"grid":   func(in *Interp, _ []Val) (Val, error) { in.eff("gridn:10,hsl(0deg 100% 0% / 50%)"); return nil, nil },
-		"gridn":  func(in *Interp, a []Val) (Val, error) { in.eff("gridn:" + g(a[0].(float64)) + "," + a[1].(string)); return nil, nil },
+		"text":    func(in *Interp, a []Val) (Val, error) { in.eff("text:" + a[0].(string)); return nil, nil },
+		"grid":    func(in *Interp, _ []Val) (Val, error) { in.eff("gridn:10,hsl(0deg 100% 0% / 50%)"); return nil, nil },
+		"gridn": func(in *Interp, a []Val) (Val, error) {
+			in.eff("gridn:" + g(a[0].(float64)) + "," + a[1].(string))
+			return nil, nil
+		},
 		"clear": func(in *Interp, a []Val) (Val, error) {
 			if len(a) > 1 {
 				return nil, rterr("panic:bad-arguments", "clear takes 0 or 1 arguments")
@@ -413,6 +429,18 @@ func testBuiltin(in *Interp, a []Val) (Val, error) {
 	}
 	if !ok {
 		in.TestFails++
+		// the message reported with the failed test: three arguments - the message as it is; more - a format string
+		msg := ""
+		if len(a) == 3 {
+			msg = unAny(a[2]).(string)
+		} else if len(a) > 3 {
+			m, err := Sprintf("test", a[2:])
+			if err != nil {
+				m = "\x00" // not defined by the documentation
+			}
+			msg = m
+		}
+		in.TestMsgs = append(in.TestMsgs, msg)
 		if in.FailFast {
 			return nil, rterr("test-fail", "failed test")
 		}
